@@ -74,9 +74,17 @@ def posOf (len : Nat) (n : Int) : Nat := if 0 < n then n.toNat - 1 else len - n.
 theorem nthIndex_int (sw : Sw) (len : Nat) (n : Int) (h0 : n ≠ 0) (hr : n.natAbs ≤ len) :
     nthIndex sw len (n : Rat) = .ok (posOf len n) := by
   unfold nthIndex
-  rw [isZero_intCast n h0, tooBig_intCast, asInt_intCast]
-  have : ¬ (len < n.natAbs) := by omega
-  simp [this, posOf, pos_intCast]
+  rw [isZero_intCast n h0, asInt_intCast]
+  have h1 : ¬ (len < n.natAbs) := by omega
+  have h2 : ¬ ((len : Rat) < (n : Rat).abs) := fun h => h1 ((abs_intCast_lt n len).mp h)
+  cases sw.rangeByInt <;> simp [h1, h2, posOf, pos_intCast]
+
+theorem nthIndex_int_range (sw : Sw) (len : Nat) (n : Int) (h0 : n ≠ 0) (hr : len < n.natAbs) :
+    nthIndex sw len (n : Rat) = .error .indexRange := by
+  unfold nthIndex
+  rw [isZero_intCast n h0, asInt_intCast]
+  have h2 : (len : Rat) < (n : Rat).abs := (abs_intCast_lt n len).mpr hr
+  cases sw.rangeByInt <;> simp [hr, h2]
 
 theorem setNthIndex_int (sw : Sw) (len : Nat) (n : Int) (h0 : n ≠ 0) (hr : n.natAbs ≤ len) :
     setNthIndex sw len (n : Rat) = .ok (posOf len n) := by
